@@ -31,7 +31,14 @@ From(x, g) == [x EXCEPT !.o = g]
 Plain(n) == R(n, 0, 0, 0, 0)
 
 \* base fields: text layouts are chosen by the harness from `lay`
-Bases == <<
+\* relation-level setters insert tokens relative to the parts already there: one base per subset of optional parts
+\* (version, qualifier, architectures, profile groups) and per INNER layout of the relation text
+\*   "inner_compact"  foo:any(>= 1.0)[amd64]<!nocheck>     "inner_generous"  foo:any ( >= 1.0) [ amd64 ] < !nocheck >
+PartBases == { [f |-> << <<R(1, v, q, a, pr)>>, <<Plain(2)>> >>, lay |-> l, sv |-> 0] :
+                 v \in 0..1, q \in 0..1, a \in 0..1, pr \in 0..2, l \in {"inner_canon", "inner_compact", "inner_generous"} }
+RECURSIVE SeqOf(_)
+SeqOf(S) == IF S = {} THEN <<>> ELSE LET x == CHOOSE y \in S : TRUE IN <<x>> \o SeqOf(S \ {x})
+Bases == SeqOf(PartBases) \o <<
   [f |-> <<>>, lay |-> "empty", sv |-> 0],
   [f |-> << <<Plain(1)>> >>, lay |-> "plain", sv |-> 0],
   [f |-> << <<Plain(1)>>, <<Plain(2)>> >>, lay |-> "plain", sv |-> 0],
@@ -54,7 +61,7 @@ Op(op, i, j, x, g) == [op |-> op, i |-> i, j |-> j, x |-> x, g |-> g]      \* i 
 
 InsertAt(s, i, x) == SubSeq(s, 1, i) \o <<x>> \o SubSeq(s, i + 1, Len(s))
 RemoveAt(s, i) == SubSeq(s, 1, i - 1) \o SubSeq(s, i + 1, Len(s))
-Min(a, b) == IF a < b THEN a ELSE b
+MinI(a, b) == IF a < b THEN a ELSE b
 
 \* relation-level edit inside entry i (1-based), relation j (1-based)
 EditRel(f, i, j, r2) == [f EXCEPT ![i][j] = r2]
@@ -70,7 +77,7 @@ Next ==
   \/ \E x \in Operands, g \in Origins : Do(Op("push", 0, 0, <<x>>, g), Append(field, <<From(x, g)>>))
   \/ \E x \in {Plain(4)}, y \in {R(5, 1, 0, 0, 0)}, g \in {"parsed", "ctor"} : Do(Op("push", 0, 0, <<x, y>>, g), Append(field, <<From(x, g), From(y, g)>>))
   \/ \E i \in 0..(NE + 1), x \in Operands, g \in {"parsed", "ctor"} :
-        Do(Op("insert", i, 0, <<x>>, g), InsertAt(field, Min(i, NE), <<From(x, g)>>))
+        Do(Op("insert", i, 0, <<x>>, g), InsertAt(field, MinI(i, NE), <<From(x, g)>>))
   \/ \E i \in 0..(NE - 1), x \in Operands, g \in {"parsed", "ctor"} :
         Do(Op("replace", i, 0, <<x>>, g), [field EXCEPT ![i + 1] = <<From(x, g)>>])
   \/ \E i \in 0..(NE - 1) : Do(Op("remove_entry", i, 0, <<>>, "parsed"), RemoveAt(field, i + 1))
